@@ -324,14 +324,12 @@ pub fn construct(maxcap: u8) {
     core::mem::forget(f);
 }
 
-/// diagnostic probe
-pub fn probe_rebase() {
+/// the unbounded ordered collection: constructors succeed for every capacity
+pub fn construct_unbounded(maxcap: u8) {
     gh::reset();
-    let c = OCfg { cap: 1, max_parked: 0, selfwakes: 0 };
-    let o = gen_opre(&c);
-    let mut f = build(&c, &o);
-    let (a, b) = f.verif_rebase_probe();
-    vassert!(a == 0, "X:placeholder capacity not 0");
-    vassert!(b == 1, "X:taken capacity not 1");
+    let n = nd::below(maxcap + 1) as usize;
+    let f: futures_buffered::FuturesOrdered<Fut> = futures_buffered::FuturesOrdered::with_capacity(n);
+    vassert!(f.len() == 0 && f.is_empty(), "C15:fresh collection not empty");
+    vcover!(n == 0, "cover:cap0");
     core::mem::forget(f);
 }
